@@ -124,6 +124,15 @@ def ProbeWf(a: int) -> int:
     return m.out
 
 
+@workflow.define
+def ProbeWf4(a: int) -> int:
+    p = workflow.add(Probe(a=a), name="p")
+    q = workflow.add(Probe(a=a + 1), name="q")
+    r = workflow.add(Probe(a=a + 2), name="r")
+    s = workflow.add(Probe(a=r.out), name="s")
+    return s.out
+
+
 def replay_load_result(res, rec):
     """turn the solver's model of the abstract file system into real cache directories and
     run the real load_result on them"""
@@ -249,41 +258,79 @@ def bounded_states(ctx):
                 shutil.rmtree(tmp, ignore_errors=True)
 
 
-def bounded_rerun_propagation(ctx):
-    dom = ctx.domain(
-        "rerun-propagation",
-        bound="two-node workflow x (rerun, propagate_rerun) in {F,T}^2 x submissions [first, second] into one cache root, debug worker",
-        rule="executions of the inner python task counted per submission; non-trivial: second submissions",
-        exhaustive=True,
-    )
+RERUN_WFS = {"chain2": (lambda: ProbeWf(a=3), 2, 12), "three-independent-then-one": (lambda: ProbeWf4(a=3), 4, 20)}
+
+
+def rerun_configs(ctx):
+    """(workflow, worker, worker kwargs, max_concurrent)"""
+    out = []
+    for wf in RERUN_WFS:
+        for mc in (None, 1, 2):
+            out.append((wf, "debug", {}, mc))
+    out.append(("three-independent-then-one", "cf", {"n_procs": 1}, None))
+    out.append(("three-independent-then-one", "cf", {"n_procs": 2}, 1))
+    if ctx.thorough:
+        out += [("chain2", "cf", {"n_procs": 1}, None), ("three-independent-then-one", "cf", {"n_procs": 4}, 2), ("three-independent-then-one", "cf", {"n_procs": 2}, None)]
+    return out
+
+
+def rerun_case(wf, worker, wkw, mc, rerun, prop):
+    """two submissions into one cache root; executions of the inner python task counted per submission"""
     from pydra.engine.submitter import Submitter
 
-    for rerun in (False, True):
-        for prop in (False, True):
-            tmp = Path(tempfile.mkdtemp(prefix="vf_c11r_"))
-            os.environ["VF_BODY_LOG"] = str(tmp / "log")
-            os.environ["VF_C11_FAIL"] = "0"
-            cwd = os.getcwd()
-            try:
-                counts = []
-                for step in range(2):
-                    H.BODY_CALLS.clear()
-                    with Submitter(cache_root=tmp / "root", worker="debug", propagate_rerun=prop) as sub:
-                        res = sub(ProbeWf(a=3), rerun=(rerun and step == 1))
-                    counts.append(len(H.BODY_CALLS))
-                case = {"rerun_second": rerun, "propagate_rerun": prop, "inner_executions": counts, "out": res.outputs.out}
-                dom.case((rerun, prop), sample=case)
-                exp_second = 2 if (rerun and prop) else 0
-                if counts[0] != 2:
-                    ctx.fail("first-run-count", f"first submission executed {counts[0]} inner tasks, expected 2", case, domain=dom)
-                if counts[1] != exp_second:
-                    ctx.fail(f"rerun-propagation:{rerun}:{prop}", f"second submission (rerun={rerun}, propagate_rerun={prop}) executed {counts[1]} inner tasks, expected {exp_second}", case, domain=dom)
-                if res.outputs.out != 12:
-                    ctx.fail("wrong-output", f"workflow output {res.outputs.out}", case, domain=dom)
-            finally:
-                os.chdir(cwd)
-                H.BODY_CALLS.clear()
-                shutil.rmtree(tmp, ignore_errors=True)
+    make, njobs, expected_out = RERUN_WFS[wf]
+    tmp = Path(tempfile.mkdtemp(prefix="vf_c11r_"))
+    os.environ["VF_BODY_LOG"] = str(tmp / "log")
+    os.environ["VF_C11_FAIL"] = "0"
+    cwd = os.getcwd()
+    try:
+        counts = []
+        for step in range(2):
+            H.BODY_CALLS.clear()
+            kw = dict(wkw)
+            if mc is not None:
+                kw["max_concurrent"] = mc
+            with Submitter(cache_root=tmp / "root", worker=worker, propagate_rerun=prop, **kw) as sub:
+                res = sub(make(), rerun=(rerun and step == 1))
+            counts.append(len(H.BODY_CALLS))
+        return {"workflow": wf, "worker": worker, "worker_kwargs": wkw, "max_concurrent": mc, "rerun_second": rerun, "propagate_rerun": prop, "inner_jobs": njobs, "inner_executions": counts, "out": res.outputs.out, "expected_out": expected_out}
+    finally:
+        os.chdir(cwd)
+        H.BODY_CALLS.clear()
+        shutil.rmtree(tmp, ignore_errors=True)
+
+
+def judge_rerun_case(case):
+    """-> list of (class, message)"""
+    bad = []
+    n, counts = case["inner_jobs"], case["inner_executions"]
+    rerun, prop = case["rerun_second"], case["propagate_rerun"]
+    exp_second = n if (rerun and prop) else 0
+    where = f"{case['workflow']}, worker {case['worker']} {case['worker_kwargs']}, max_concurrent={case['max_concurrent']}"
+    if counts[0] != n:
+        bad.append(("first-run-count", f"{where}: first submission executed {counts[0]} inner tasks, expected {n}"))
+    if counts[1] != exp_second:
+        bad.append((f"rerun-propagation:{rerun}:{prop}", f"{where}: second submission (rerun={rerun}, propagate_rerun={prop}) executed {counts[1]} inner tasks, expected {exp_second}"))
+    if case["out"] != case["expected_out"]:
+        bad.append(("wrong-output", f"{where}: workflow output {case['out']}"))
+    return bad
+
+
+def bounded_rerun_propagation(ctx):
+    cfgs = rerun_configs(ctx)
+    dom = ctx.domain(
+        "rerun-propagation",
+        bound=f"workflows {list(RERUN_WFS)} x (rerun, propagate_rerun) in {{F,T}}^2 x submissions [first, second] into one cache root x (worker, max_concurrent) in {[(w, k, m) for _, w, k, m in cfgs]}",
+        rule="executions of the inner python task counted per submission (file-based counter, also across worker processes); with rerun and propagation every inner task runs again exactly once, otherwise none; non-trivial: second submissions",
+        exhaustive=True,
+    )
+    for wf, worker, wkw, mc in cfgs:
+        for rerun in (False, True):
+            for prop in (False, True):
+                case = rerun_case(wf, worker, wkw, mc, rerun, prop)
+                dom.case((wf, worker, str(wkw), mc, rerun, prop), sample=case)
+                for klass, msg in judge_rerun_case(case):
+                    ctx.fail(klass, msg, case, domain=dom)
 
 
 def run(ctx):
@@ -319,4 +366,12 @@ def replay(rec):
         print("replay C11: re-running the cache-state enumeration (quick bound)")
         bounded_states(c)
         return 1 if c.violations else 0
+    if "inner_executions" in case:
+        c2 = rerun_case(case["workflow"], case["worker"], case["worker_kwargs"], case["max_concurrent"], case["rerun_second"], case["propagate_rerun"])
+        bad = judge_rerun_case(c2)
+        print(f"replay C11: {c2}\n  problems: {bad}")
+        if bad:
+            print(f"VIOLATION property=C11 replay={rec.get('_path', '')}")
+            return 1
+        return 0
     return H.replay_case("C11", rec)
